@@ -49,6 +49,42 @@ Proof.
 Qed.
 Print Assumptions C13_same_final_state_without_failing_statements.
 
+(* ---------------------------------------------------------------------------------------------------------------------
+   Pointer level (Model/Heap.v: the transcription of Tensor._in_place_op / DuplicatingGraph; tied to /repo by the object-graph
+   correspondence of harness/heapcorr.py).  [wf] is the heap invariant of Proofs/HeapP2.v (decidable: HeapWfb.wfb); every heap
+   reached from the empty heap by leaf / operation / view / in-place statements satisfies it. *)
+From MG Require Model.Heap.
+From MG Require Import Proofs.HeapP1 Proofs.HeapWfb Proofs.HeapP2 Proofs.HeapP8 Proofs.HeapP9 Proofs.HeapP21.
+
+(* an in-place operation whose kernel raises returns every table of the heap -- tensors (creator, base, view children, consumer
+   set, array, gradient flags), operations (variables), weak collections, arrays -- exactly as it was; only the allocation
+   counter moved *)
+Theorem C13_heap_failed_inplace_restores_every_table : forall h m k inputs masked out, wf h ->
+  Heap.inplace h m k inputs masked true = Some out -> exists h', out = Heap.Raised h' /\ same_tables h h'.
+Proof. exact inplace_failure_noop. Qed.
+Print Assumptions C13_heap_failed_inplace_restores_every_table.
+
+(* the same for EVERY raising outcome of the model, in particular the stale view whose path to the base no longer exists
+   (the KeyError of get_path_to_base: the defect repaired by 648be3c lived here) *)
+Theorem C13_heap_any_raising_inplace_restores_every_table : forall h m k inputs masked fails h', wf h ->
+  Heap.inplace h m k inputs masked fails = Some (Heap.Raised h') -> same_tables h h'.
+Proof. exact inplace_raised_noop. Qed.
+Print Assumptions C13_heap_any_raising_inplace_restores_every_table.
+
+(* building the placeholder graph and routing it back is the identity on every table *)
+Theorem C13_heap_duplicate_then_restore_is_identity : forall h b tb, wf h -> Heap.getT h b = Some tb -> Heap.t_grad tb = false ->
+  exists h1 g h2, Heap.dup h b = Some (h1, g) /\ Heap.restore h1 g = Some h2 /\ same_tables h (Heap.free_placeholders h2 g).
+Proof. exact dup_restore. Qed.
+Print Assumptions C13_heap_duplicate_then_restore_is_identity.
+
+(* the hypothesis is met by every heap a clear_graph-free history reaches (and wf is decidable: wfb) *)
+Theorem C13_heap_reachable_heaps_are_wf : forall ss h', run_ok Heap.empty_heap ss -> Heap.run Heap.empty_heap ss = Some h' -> wf h'.
+Proof. exact wf_reachable. Qed.
+Print Assumptions C13_heap_reachable_heaps_are_wf.
+Theorem C13_heap_wf_decidable : forall h, wfb h = true <-> wf h.
+Proof. exact wfb_wf. Qed.
+Print Assumptions C13_heap_wf_decidable.
+
 (* locks: an operation that locked its inputs and is then finalised (what the except-branch of Tensor._op does through
    release_writeability_lock_on_op) restores every flag -- instance of C08_restored_at_quiescence *)
 From MG Require Import Model.LockMgr Proofs.LockP.
